@@ -75,6 +75,7 @@ def rule_B1(ctx: Ctx) -> None:
         if not name.startswith("gen_"):
             continue
         g = build_cfg(f.node)
+        has_bulk_random = any(isinstance(c_, ast.Compare) and _is_random_bulk(c_) for c_ in ast.walk(f.node))
 
         def transfer(node, st):
             a = node.ast
@@ -94,6 +95,11 @@ def rule_B1(ctx: Ctx) -> None:
                             st.add(tg.id)
                         else:
                             st.discard(tg.id)
+                    elif isinstance(tg, ast.Subscript) and isinstance(tg.value, ast.Name) and has_bulk_random \
+                            and not (isinstance(v, ast.Constant) and v.value is False):
+                        # a percolation-style generator writes an edge bit directly (after the boundary may have been cleared): the
+                        # array must pass the sanitiser again before it becomes a maze (the single-edge idiom of B2 is not used here)
+                        st.add(tg.value.id)
                 elif isinstance(a, ast.Expr) and isinstance(a.value, ast.Call) and X.U(a.value.func).endswith(FILL) and a.value.args \
                         and isinstance(a.value.args[0], ast.Name):
                     st.discard(a.value.args[0].id)
